@@ -53,6 +53,8 @@ func main() {
 			copy(keys, ks[:len(keys)])
 		}
 		n := 5 + rng.Intn(120)
+		var hist []string
+		reported := false
 		for i := 0; i < n; i++ {
 			k := keys[rng.Intn(keyRange)]
 			var flag bool
@@ -64,15 +66,20 @@ func main() {
 					id = iter.VerifNodeOf()
 				}
 				fmt.Fprintf(wo, "ins %d %d %d\n", k, v, id)
+				hist = append(hist, fmt.Sprintf("ins %d", k))
 				flag = ok
 			} else {
 				flag = t.DeleteWithKey(k)
 				fmt.Fprintf(wo, "del %d\n", k)
+				hist = append(hist, fmt.Sprintf("del %d", k))
 			}
 			st, _ := alloc.VerifSnapshot()
 			root, mn, mx, cnt := t.VerifHeader()
-			if _, _, err := t.VerifCheck(); err != nil {
-				panic(err)
+			if _, _, err := t.VerifCheck(); err != nil && !reported {
+				// the red-black invariants stated on the real tree: search order, parent links, a black root, no red node
+				// with a red child, equal black height on every path, count/min/max
+				reported = true
+				hv.Fail("rb-invariant", fmt.Sprintf(`{"ops_on_an_empty_tree":%q}`, hist), "after these operations the tree breaks an invariant: "+err.Error())
 			}
 			fmt.Fprintf(wi, "%v %s min=%d max=%d n=%d\n", flag, dump(st, root), mn, mx, cnt)
 		}
